@@ -413,6 +413,69 @@ func (r *c14Runner) makeTable(al []rv.V) (cells []value.Primary) {
 	return cells
 }
 
+// familyFnDML: the same function call inside a data-changing statement. The working rows of UPDATE and DELETE
+// carry an internal identity cell in front of the table's cells; a function that touches the record it is given
+// would change which row gets which value, or which rows are removed. Oracle: what SELECT computes per row is
+// what UPDATE stores in that row and what decides the row in DELETE; the other column is untouched.
+func (r *c14Runner) familyFnDML(thorough bool) {
+	al := c14Args(thorough)
+	var idx int64
+	for _, fn := range c14Functions() {
+		if c14Nondeterministic[fn] || fn == "UUID" || fn == "CALL" {
+			continue
+		}
+		for _, form := range []string{"%s()", "%s(c)", "%s(c, c)", "%s(c, 1)"} {
+			idx++
+			if !r.c.Mine(idx) {
+				continue
+			}
+			call := fmt.Sprintf(form, fn)
+			env := drv.New(core.Scratch("c14dml"))
+			env.Tx.Flags.SetQuiet(true)
+			env.Exec("DECLARE w VIEW (id, c, d);")
+			ins := mustParse("INSERT INTO w VALUES (@i, @x, 'keep')")
+			for i, v := range al {
+				env.SetVar("i", value.NewInteger(int64(i)))
+				env.SetVar("x", v.Primary())
+				env.Proc.Execute(env.Ctx, ins)
+			}
+			sel := env.Exec("SELECT id, c, " + call + " FROM w ORDER BY id;")
+			if sel.Err != nil || sel.Panic != nil || len(sel.Views) != 1 {
+				env.Close()
+				continue // forms the function rejects are the subject of the other families
+			}
+			want := drv.Rows(sel.Views[0])
+			payload := c14Payload{Family: "fn-dml", SQL: call}
+			r.c.Eval("fn-dml|"+call, true)
+			upd := env.Exec("UPDATE w SET d = " + call + "; SELECT id, c, d FROM w ORDER BY id;")
+			if upd.Err != nil || upd.Panic != nil || len(upd.Views) != 1 {
+				r.c.Violate("fn-dml:update-fails:"+fn, fmt.Sprintf("SELECT id, c, %s FROM w succeeds, UPDATE w SET d = %s fails: %v %v", call, call, upd.Err, upd.Panic), payload)
+			} else if got := drv.Rows(upd.Views[0]); drv.RowsKey(got) != drv.RowsKey(want) {
+				r.c.Violate("fn-dml:update-stores-other-values:"+fn, fmt.Sprintf("UPDATE w SET d = %s leaves (id, c, d) = %s; SELECT id, c, %s gave %s", call, clip(drv.RowsKey(got)), call, clip(drv.RowsKey(want))), payload)
+			}
+			del := env.Exec("DELETE FROM w WHERE (" + call + ") IS NULL; SELECT id FROM w ORDER BY id;")
+			if del.Err == nil && del.Panic == nil && len(del.Views) == 1 {
+				var keep []string
+				for _, row := range want {
+					if row[2].K != rv.Null {
+						keep = append(keep, row[0].Key())
+					}
+				}
+				var got []string
+				for _, row := range drv.Rows(del.Views[0]) {
+					got = append(got, row[0].Key())
+				}
+				if strings.Join(got, ",") != strings.Join(keep, ",") {
+					r.c.Violate("fn-dml:delete-removes-other-rows:"+fn, fmt.Sprintf("DELETE FROM w WHERE (%s) IS NULL keeps ids %v; the rows for which SELECT computed a non-NULL value are %v", call, got, keep), payload)
+				}
+			} else {
+				r.c.Violate("fn-dml:delete-fails:"+fn, fmt.Sprintf("DELETE FROM w WHERE (%s) IS NULL fails: %v %v", call, del.Err, del.Panic), payload)
+			}
+			env.Close()
+		}
+	}
+}
+
 func (r *c14Runner) familyFnCell(thorough bool) {
 	al := c14Args(thorough)
 	cells := r.makeTable(al)
@@ -711,6 +774,8 @@ func c14Run(c *core.Ctx) {
 	r.familyTwice()
 	r.familyReread()
 	c14CheckPools(c, "family reread", c14Payload{Family: "reread"})
+	r.familyFnDML(c.Thorough())
+	c14CheckPools(c, "family fn-dml (functions inside UPDATE and DELETE)", c14Payload{Family: "fn-dml"})
 	r.familyFnCell(c.Thorough())
 	c14CheckPools(c, "family fn-cell (functions over table cells)", c14Payload{Family: "fn-cell"})
 	r.familyFnLit(c.Thorough())
